@@ -79,7 +79,7 @@ function mapReference (rng, file) {
   else if (r === 7) url = 'data:application/json;charset=utf-8;base64,' + b64(VALID_MAP)
   else if (r === 8) url = 'data:,'
   else if (r === 9) url = ' ' + rng.pick(DICT) + rng.pick(DICT)
-  else if (r === 10) url = 'http://example.com/x.js.map'
+  else if (r === 10) url = rng.pick(['http://example.com/x.js.map', 'dist/파일 v2', 'aé b', '🗺🗺.map \'the map\'', '€\u3000v2', 'ñ.js.map generated', 'x.map "q"', 'é', '  spaced.map  ', 'file:///abs/x.map', 'x.map?q=é#ü', '%E2%82%AC.map'])
   else if (r <= 16) { url = '/abs/maps/' + rng.pick(['x.js.map', 'ñ.map', 'dir/']); files[url] = entry } else {
     url = rng.pick(['x.js.map', './x.js.map', '../maps/x.js.map', 'sub/dir/x.map', '.', '..', 'x.js.map?v=1'])
     // register under every path the rewriter could resolve it to
